@@ -547,8 +547,8 @@ func (w *World) oracleBytes() {
 		if !mapsEqual(mt.OriginalRcpts, m.OrigRcpts) {
 			s.Violate("C10/envelope/original-rcpts/"+when, "%s tx%d: original-recipient map %v, accepted %v", m.ID, tx.N, mt.OriginalRcpts, m.OrigRcpts)
 		}
-		if mt.OriginalFrom != m.From {
-			s.Violate("C10/envelope/original-from/"+when, "%s tx%d: original sender %q, accepted %q", m.ID, tx.N, mt.OriginalFrom, m.From)
+		if mt.OriginalFrom != m.OrigFrom {
+			s.Violate("C10/envelope/original-from/"+when, "%s tx%d: original sender %q, accepted %q", m.ID, tx.N, mt.OriginalFrom, m.OrigFrom)
 		}
 		if tx.BodyErr != "" {
 			s.Violate("C10/body-bytes/"+when, "%s tx%d: body handed downstream is unreadable: %s", m.ID, tx.N, tx.BodyErr)
@@ -682,7 +682,16 @@ func (w *World) oracleSched() {
 		txs := w.txsOf(m)
 		for i := 1; i < len(txs); i++ {
 			a, b := txs[i-1], txs[i]
-			if a.Inc != b.Inc || a.EndStep == 0 {
+			if a.EndStep == 0 {
+				continue
+			}
+			if a.Inc != b.Inc {
+				// across a clean shutdown: what the closed queue left in the
+				// spool says when the last attempt was, the restarted queue
+				// schedules the retry from that
+				if _, clean := w.closeStep[a.Inc]; clean && w.crashes == 0 && b.AtD < a.EndD+w.sc.Retry {
+					s.Violate("C12/dispatch-early/after-restart", "%s: attempt tx%d of the restarted queue started at %v, the previous attempt tx%d (before the shutdown) ended at %v, retry delay is at least %v", m.ID, b.N, b.AtD, a.N, a.EndD, w.sc.Retry)
+				}
 				continue
 			}
 			if b.AtD < a.EndD+w.sc.Retry && b.Step > a.EndStep {
